@@ -281,7 +281,8 @@ Proof.
   - intros [].
   - apply extrema_subset_rect.
   - apply extrema_subset_reg.
-  - destruct l as [|x0 l']; [intros []|]. cbn [extrema]. generalize (x0 :: l'). intro l.
+  - destruct l as [|x0 l']; [intros [<-|[]]; apply In_InV; left; reflexivity|].
+    cbn [extrema]. generalize (x0 :: l'). intro l.
     unfold scan_key.
     pose proof (scan_mem (fun v : vec => fst v) l vzero vzero) as [M1 M2].
     pose proof (scan_mem (fun v : vec => snd v) l vzero vzero) as [M3 M4].
@@ -289,14 +290,16 @@ Proof.
     destruct (fold_left (step_key (fun v : vec => snd v)) l (vzero, vzero)) as [c d].
     cbn [fst snd] in *. cbn [In]. intro H. apply In_InV. apply expl_in.
     repeat (destruct H as [<- | H]); try contradiction; assumption.
-  - destruct l as [|x0 l']; [intros []|]. cbn [extrema]. generalize (x0 :: l'). intro l.
+  - destruct l as [|x0 l']; [intros [<-|[]]; apply In_InV; left; reflexivity|].
+    cbn [extrema]. generalize (x0 :: l'). intro l.
     unfold scan_key.
     pose proof (scan_mem (fun x : Q => x) l 0 0) as [M1 M2].
     destruct (fold_left (step_key (fun x : Q => x)) l (0, 0)) as [a b].
     cbn [fst snd] in *.
     destruct (negb (Qeq_bool a b)); cbn [In]; intro H;
       repeat (destruct H as [<- | H]); try contradiction; apply In_InV; apply explX_in; assumption.
-  - destruct l as [|x0 l']; [intros []|]. cbn [extrema]. generalize (x0 :: l'). intro l.
+  - destruct l as [|x0 l']; [intros [<-|[]]; apply In_InV; left; reflexivity|].
+    cbn [extrema]. generalize (x0 :: l'). intro l.
     unfold scan_key.
     pose proof (scan_mem (fun x : Q => x) l 0 0) as [M1 M2].
     destruct (fold_left (step_key (fun x : Q => x)) l (0, 0)) as [a b].
@@ -549,9 +552,11 @@ Proof.
     exists e. split; [exact He|]. rewrite Hy. unfold corner. lra.
 Qed.
 
-Lemma spans_expl l : l <> [] -> spans (extrema (RExpl l)) (offsets (RExpl l)).
+Lemma spans_expl l : spans (extrema (RExpl l)) (offsets (RExpl l)).
 Proof.
-  destruct l as [|x0 l']; [congruence|]. intros _. cbn [extrema]. generalize (x0 :: l'). intro l.
+  destruct l as [|x0 l'].
+  { intros o [<-|[]]. repeat split; exists (0, 0); (split; [left; reflexivity | cbn; lra]). }
+  cbn [extrema]. generalize (x0 :: l'). intro l.
   unfold scan_key.
   pose proof (scan_bounds (fun v : vec => fst v) l vzero vzero) as Bx.
   pose proof (scan_bounds (fun v : vec => snd v) l vzero vzero) as By.
@@ -573,9 +578,11 @@ Proof.
     + exists d. split; [right; right; right; left; reflexivity | exact Y2].
 Qed.
 
-Lemma spans_explX l : l <> [] -> spans (extrema (RExplX l)) (offsets (RExplX l)).
+Lemma spans_explX l : spans (extrema (RExplX l)) (offsets (RExplX l)).
 Proof.
-  destruct l as [|x0 l']; [congruence|]. intros _. cbn [extrema]. generalize (x0 :: l'). intro l.
+  destruct l as [|x0 l'].
+  { intros o [<-|[]]. repeat split; exists (0, 0); (split; [left; reflexivity | cbn; lra]). }
+  cbn [extrema]. generalize (x0 :: l'). intro l.
   unfold scan_key.
   pose proof (scan_bounds (fun x : Q => x) l 0 0) as B.
   destruct (fold_left (step_key (fun x : Q => x)) l (0, 0)) as [a b].
@@ -593,9 +600,11 @@ Proof.
     + exists (a, 0). split; [left; reflexivity | cbn [fst snd]; lra].
 Qed.
 
-Lemma spans_explY l : l <> [] -> spans (extrema (RExplY l)) (offsets (RExplY l)).
+Lemma spans_explY l : spans (extrema (RExplY l)) (offsets (RExplY l)).
 Proof.
-  destruct l as [|x0 l']; [congruence|]. intros _. cbn [extrema]. generalize (x0 :: l'). intro l.
+  destruct l as [|x0 l'].
+  { intros o [<-|[]]. repeat split; exists (0, 0); (split; [left; reflexivity | cbn; lra]). }
+  cbn [extrema]. generalize (x0 :: l'). intro l.
   unfold scan_key.
   pose proof (scan_bounds (fun x : Q => x) l 0 0) as B.
   destruct (fold_left (step_key (fun x : Q => x)) l (0, 0)) as [a b].
@@ -613,14 +622,6 @@ Proof.
     + exists (0, b). split; [right; left; reflexivity | cbn [fst snd]; lra].
 Qed.
 
-(* get_extrema returns nothing for an explicit kind whose list is empty, although the
-   repetition then denotes the one-element set {0} *)
-Definition extrema_defined (r : rep) : Prop :=
-  match r with
-  | RExpl [] | RExplX [] | RExplY [] => False
-  | _ => True
-  end.
-
 Lemma lattice_nil_r cols f : lattice cols 0 f = [].
 Proof.
   unfold lattice.
@@ -629,9 +630,10 @@ Proof.
   apply H.
 Qed.
 
-Lemma extrema_nil_offsets_nil r : extrema_defined r -> extrema r = [] -> offsets r = [].
+(* no extreme is reported exactly when there is no offset (None, or zero columns / rows) *)
+Lemma extrema_nil_offsets_nil r : extrema r = [] -> offsets r = [].
 Proof.
-  destruct r as [|c rw sx sy|c rw v1 v2|l|l|l]; cbn [extrema_defined]; intros Hd.
+  destruct r as [|c rw sx sy|c rw v1 v2|l|l|l].
   - reflexivity.
   - cbn [extrema]. destruct ((c =? 0) || (rw =? 0))%N eqn:E0.
     + intros _. rewrite offsets_spec_lemma. cbn [offsets_spec].
@@ -643,41 +645,40 @@ Proof.
       apply orb_true_iff in E0. destruct E0 as [E|E]; apply N.eqb_eq in E; subst;
         [reflexivity | apply lattice_nil_r].
     + destruct (c =? 1)%N, (rw =? 1)%N; cbv zeta; discriminate.
-  - destruct l; [contradiction|]. cbn [extrema].
+  - destruct l; [discriminate|]. cbn [extrema].
     destruct (scan_key _ _ _), (scan_key _ _ _). discriminate.
-  - destruct l; [contradiction|]. cbn [extrema].
+  - destruct l; [discriminate|]. cbn [extrema].
     destruct (scan_key _ _ _). destruct (negb _); discriminate.
-  - destruct l; [contradiction|]. cbn [extrema].
+  - destruct l; [discriminate|]. cbn [extrema].
     destruct (scan_key _ _ _). destruct (negb _); discriminate.
 Qed.
 
-Theorem extrema_spans_lemma r : extrema_defined r -> spans (extrema r) (offsets r).
+Theorem extrema_spans_lemma r : spans (extrema r) (offsets r).
 Proof.
-  destruct r as [|c rw sx sy|c rw v1 v2|l|l|l]; cbn [extrema_defined]; intro Hd.
+  destruct r as [|c rw sx sy|c rw v1 v2|l|l|l].
   - intros o [].
   - apply spans_rect.
   - apply spans_reg.
-  - apply spans_expl. destruct l; [contradiction | discriminate].
-  - apply spans_explX. destruct l; [contradiction | discriminate].
-  - apply spans_explY. destruct l; [contradiction | discriminate].
+  - apply spans_expl.
+  - apply spans_explX.
+  - apply spans_explY.
 Qed.
 
-(* the bounding box of the reported extrema is the bounding box of all offsets *)
-Theorem extrema_bbox_lemma r : extrema_defined r ->
-  bbox_eq (bbox (extrema r)) (bbox (offsets r)).
+(* the bounding box of the reported extrema is the bounding box of all offsets: every kind,
+   every count (including 0 and 1), every sign pattern, every explicit list (including the empty
+   one, for which get_extrema now reports the origin) *)
+Theorem extrema_bbox_lemma r : bbox_eq (bbox (extrema r)) (bbox (offsets r)).
 Proof.
-  intro Hd. apply bbox_eq_of_span.
+  apply bbox_eq_of_span.
   - intros e. apply extrema_subset_lemma.
-  - apply extrema_spans_lemma. exact Hd.
-  - apply extrema_nil_offsets_nil. exact Hd.
+  - apply extrema_spans_lemma.
+  - apply extrema_nil_offsets_nil.
 Qed.
 
-(* ... and the case get_extrema misses: explicit kinds with an empty list have count 1 and the
-   single offset 0, but no extreme at all, so the bounding box is lost *)
-Theorem extrema_empty_explicit_refuted :
+(* explicit kinds with an empty list: count 1, the single offset 0, the single extreme 0 *)
+Theorem extrema_empty_explicit_lemma :
   forall r, In r [RExpl []; RExplX []; RExplY []] ->
-    rep_ok r /\ count r = 1%N /\ offsets r = [vzero] /\ extrema r = [] /\
-    ~ bbox_eq (bbox (extrema r)) (bbox (offsets r)).
+    rep_ok r /\ count r = 1%N /\ offsets r = [vzero] /\ extrema r = [vzero].
 Proof.
   intros r [<-|[<-|[<-|[]]]]; repeat split; cbn; auto.
 Qed.
@@ -823,79 +824,93 @@ Section ApplyProofs.
     unfold wrapZ, two64N. intro H. rewrite Z.mod_small by lia. lia.
   Qed.
 
-  (* One copy per offset other than the first (which is the zero vector, see
+  (* One copy per offset other than the first (which is the zero vector when there is one, see
      offsets_head_zero_lemma), in the enumeration order, duplicates kept; each copy is the
-     element translated by that offset; copies and the original are left without repetition. *)
+     element translated by that offset; copies and the original are left without repetition.
+     Holds for every representable repetition: None and count 0 give no copy (tl [] = []). *)
   Theorem apply_repetition_spec_lemma e r :
-    rep_ok r -> (0 < count r)%N ->
-    apply_repetition translate e r = Ok (map (fun v => translate v e) (tl (offsets r)), RNone) /\
-    N.of_nat (length (map (fun v => translate v e) (tl (offsets r)))) = (count r - 1)%N.
+    rep_ok r ->
+    apply_repetition translate e r =
+      Ok (map (fun v => (translate v e, RNone)) (tl (offsets r)), RNone) /\
+    N.of_nat (length (map (fun v => (translate v e, RNone)) (tl (offsets r)))) = (count r - 1)%N.
   Proof.
-    intros Hok Hpos.
+    intros Hok.
     pose proof (count_offsets_lemma r Hok) as Hc.
-    destruct (offsets_head_zero_lemma r Hpos) as (z & t & Ho & _).
     assert (Hlt : (N.of_nat (length (offsets r)) < two64N)%N).
     { rewrite Hc. destruct r; cbn [count] in *; unfold wrapN;
-        try (apply N.mod_lt; discriminate). lia. }
+        try (apply N.mod_lt; discriminate). reflexivity. }
     split.
-    - destruct r; [cbn in Hpos; lia| | | | |];
-        unfold apply_repetition; rewrite Ho in *; cbn [length skipn tl] in *;
+    - destruct r; [reflexivity| | | | |];
+        unfold apply_repetition;
+        (destruct (offsets _) as [|z t] eqn:Ho; [reflexivity|]);
+        cbn [length skipn tl] in *;
+        replace (N.of_nat (S (length t)) =? 0)%N with false by (symmetry; apply N.eqb_neq; lia);
         rewrite (wrapZ_pred_small (length t) Hlt), N.ltb_irrefl, Nat2N.id, firstn_all; reflexivity.
-    - rewrite map_length, <- Hc, Ho. cbn [tl length]. lia.
+    - rewrite map_length, <- Hc. destruct (offsets r); cbn [tl length]; lia.
   Qed.
 
-  (* F18: a Rectangular / Regular repetition with columns = 0 or rows = 0 *)
-  Lemma apply_zero_count_crash e r : r <> RNone -> offsets r = [] -> apply_repetition translate e r = Crash.
+  (* the repaired degenerate case: no offsets (zero columns or rows) => no copies, no crash *)
+  Lemma apply_zero_count_ok e r : offsets r = [] -> apply_repetition translate e r = Ok ([], RNone).
   Proof.
-    intros Hn Ho. destruct r; [congruence| | | | |]; unfold apply_repetition; rewrite Ho; reflexivity.
+    intros Ho. destruct r; [reflexivity| | | | |]; unfold apply_repetition; rewrite Ho; reflexivity.
   Qed.
+
+  (* the model's Crash branch is dead code for representable repetitions *)
+  Corollary apply_repetition_no_crash_lemma e r : rep_ok r -> apply_repetition translate e r <> Crash.
+  Proof. intros H C. destruct (apply_repetition_spec_lemma e r H) as [Heq _]. congruence. Qed.
 End ApplyProofs.
 
-(* "always includes the zero vector" fails for columns = 0 (or rows = 0): the count is 0, the
-   set of offsets is empty, and apply_repetition on any element reads outside the offsets array *)
+(* What is still false in "always includes the zero vector": with columns = 0 (or rows = 0) the
+   count is 0 and the set of offsets is empty.  (apply_repetition then makes no copy and clears
+   the repetition; get_extrema reports nothing.) *)
 Theorem zero_count_refuted :
-  exists r, rep_ok r /\ r <> RNone /\ count r = 0%N /\ offsets r = [] /\ ~ InV vzero (offsets r) /\
-            extrema r = [] /\
-            forall (E : Type) (translate : vec -> E -> E) (e : E),
-              apply_repetition translate e r = Crash.
+  exists r, rep_ok r /\ r <> RNone /\ count r = 0%N /\ offsets r = [] /\ ~ InV vzero (offsets r).
 Proof.
   exists (RRect 0 1 1 1). split; [reflexivity|]. split; [discriminate|].
-  split; [reflexivity|]. split; [reflexivity|]. split; [intro H; inversion H|].
-  split; [reflexivity|]. intros. reflexivity.
+  split; [reflexivity|]. split; [reflexivity|]. intro H; inversion H.
 Qed.
 
-(* both degenerate directions, every lattice kind, any spacing *)
-Theorem zero_count_crash_lemma :
+(* both degenerate directions, every lattice kind, any spacing: empty set, no extrema, and
+   apply_repetition returns no copies and leaves the element without repetition *)
+Theorem zero_count_apply_lemma :
   forall c rw, (c = 0 \/ rw = 0)%N ->
   forall (E : Type) (translate : vec -> E -> E) (e : E),
-    (forall sx sy, apply_repetition translate e (RRect c rw sx sy) = Crash) /\
-    (forall v1 v2, apply_repetition translate e (RReg c rw v1 v2) = Crash).
+    (forall sx sy, offsets (RRect c rw sx sy) = [] /\ extrema (RRect c rw sx sy) = [] /\
+                   apply_repetition translate e (RRect c rw sx sy) = Ok ([], RNone)) /\
+    (forall v1 v2, offsets (RReg c rw v1 v2) = [] /\ extrema (RReg c rw v1 v2) = [] /\
+                   apply_repetition translate e (RReg c rw v1 v2) = Ok ([], RNone)).
 Proof.
   intros c rw H E translate e.
-  split; intros; apply apply_zero_count_crash; try discriminate;
-    rewrite offsets_spec_lemma; cbn [offsets_spec];
-    destruct H as [-> | ->]; try reflexivity; apply lattice_nil_r.
+  assert (Ho : forall f, lattice (N.to_nat c) (N.to_nat rw) f = []).
+  { intro f. destruct H as [-> | ->]; [reflexivity | apply lattice_nil_r]. }
+  assert (Hb : ((c =? 0) || (rw =? 0))%N = true).
+  { destruct H as [-> | ->]; [reflexivity | apply orb_true_r]. }
+  split; intros.
+  - assert (O : offsets (RRect c rw sx sy) = []) by (rewrite offsets_spec_lemma; apply Ho).
+    split; [exact O|]. split; [cbn [extrema]; now rewrite Hb | now apply apply_zero_count_ok].
+  - assert (O : offsets (RReg c rw v1 v2) = []) by (rewrite offsets_spec_lemma; apply Ho).
+    split; [exact O|]. split; [cbn [extrema]; now rewrite Hb | now apply apply_zero_count_ok].
 Qed.
 
 (* the concrete element used by the extracted driver *)
 Corollary apply_elem_spec_lemma {A} (e : elem A) r :
-  rep_ok r -> (0 < count r)%N ->
-  apply_elem e r = Ok (map (fun v => mkElem (map (fun p => vadd p v) (e_pos e)) (e_rest e))
+  rep_ok r ->
+  apply_elem e r = Ok (map (fun v => (mkElem (map (fun p => vadd p v) (e_pos e)) (e_rest e), RNone))
                            (tl (offsets r)), RNone).
-Proof. intros H1 H2. apply (apply_repetition_spec_lemma elem_translate e r H1 H2). Qed.
+Proof. intros H1. apply (apply_repetition_spec_lemma elem_translate e r H1). Qed.
 
 (* ================================================================== hypotheses are satisfiable *)
 Example rep_ok_example :
   let r := RReg 3 2 (2, 1) (-1, 3) in
-  rep_ok r /\ (0 < count r)%N /\ extrema_defined r /\ count r = 6%N /\
+  rep_ok r /\ (0 < count r)%N /\ count r = 6%N /\
   offsets r = offsets_spec r /\ length (extrema r) = 4%nat.
 Proof. cbn. repeat split; reflexivity. Qed.
 
 Example rot_ok_example : rot_ok (Some (3 # 5, 4 # 5)) /\ rot_ok (Some (0, -1 # 1)) /\ rot_ok None.
 Proof. cbn. repeat split; reflexivity. Qed.
 
-Example extrema_defined_example : extrema_defined (RExplX [3; -2; 3]) /\ rep_ok (RExplX [3; -2; 3]).
-Proof. cbn. split; [exact I | reflexivity]. Qed.
+Example rep_ok_zero_count_example : rep_ok (RReg 3 0 (1, 2) (3, 4)) /\ count (RReg 3 0 (1, 2) (3, 4)) = 0%N.
+Proof. cbn. split; reflexivity. Qed.
 
 Print Assumptions offsets_spec_lemma.
 Print Assumptions offsets_nth_lemma.
@@ -903,9 +918,10 @@ Print Assumptions count_offsets_lemma.
 Print Assumptions zero_in_offsets_lemma.
 Print Assumptions extrema_subset_lemma.
 Print Assumptions extrema_bbox_lemma.
-Print Assumptions extrema_empty_explicit_refuted.
+Print Assumptions extrema_empty_explicit_lemma.
 Print Assumptions transform_linear_lemma.
 Print Assumptions apply_repetition_spec_lemma.
 Print Assumptions zero_count_refuted.
-Print Assumptions zero_count_crash_lemma.
+Print Assumptions zero_count_apply_lemma.
+Print Assumptions apply_repetition_no_crash_lemma.
 Print Assumptions count_wrap_refuted.
